@@ -293,12 +293,25 @@ package parser
 //@   unchecked bounds:slice#4 numeral shape facts come from regexp/strconv/strings.Contains results that are outside the modelled subset (bounded stand-in planned, see DESIGN.md C01)
 //@ end
 
+// C03 (numeral acceptance): a hexadecimal mantissa - lower-case hex digits with at most one "." and at least one digit,
+// no exponent - that the regular expression lets through is accepted, whether the digits stand before the ".", after it,
+// or both (0xA.8, 0xA., 0x.8). Only the regular expression (outside the model) may reject such a literal.
+//@ spec hexd(c int) bool = (c >= 48 && c <= 57) || (c >= 97 && c <= 102)
+//@ spec hexMantissa(s string) bool = len(s) >= 1 && forall(k, 0, len(s), hexd(s[k]) || s[k] == 46)
+//@      && forall(i, 0, len(s), forall(j, i + 1, len(s), !(s[i] == 46 && s[j] == 46))) && exists(k, 0, len(s), hexd(s[k]))
 //@ func parseHexFloat
 //@   sweep C01
+//@   props C03
+//@   ensures[C03,well-formed-hex-mantissa-is-accepted] hexMantissa(old(str)) && hits("strings.Index#0") == 1 ==> result1
+//@   loop for:i>=0 invariant [C03] i >= -1 && i < len(digits)
+//@   loop for:i<len(str) invariant [C03] i >= 0
 //@   unchecked bounds:index#0 numeral shape facts come from regexp/strconv/strings.Contains results that are outside the modelled subset (bounded stand-in planned, see DESIGN.md C01)
 //@ end
 
 //@ func parseDigit
 //@   sweep C01
+//@   props C03
+//@   ensures[C03,hex-digit-is-a-digit-in-base-16] base == 16 && hexd(digit) ==> result1
+//@   ensures[C03,decimal-digit-is-a-digit-in-base-10] base == 10 && digit >= 48 && digit <= 57 ==> result1
 //@ end
 
